@@ -30,6 +30,7 @@ size_t vg_S;          /* logical position at which the scan started */
 int vg_hit_skip;      /* value of skip_files when the scan examined offset vg_P */
 _Bool vg_mark;        /* a self-extractor marker has been seen */
 size_t vg_mark_pos;   /* absolute position of the last marker seen */
+size_t vg_L0;         /* lha_input_stream_read: logical position at which delivery into buf starts */
 
 #define VG_GHOST_OK (vg_P <= VG_POS_MAX)
 
@@ -143,9 +144,12 @@ void vg_src_close(void *handle)
 /* stream types the harness uses: with and without the optional callbacks */
 const LHAInputStreamType vg_type_cb = { vg_src_read, vg_src_skip, vg_src_close };
 const LHAInputStreamType vg_type_rd = { vg_src_read, NULL, NULL };
-#define VG_TYPE_OK ((vg_st.type == &vg_type_cb || vg_st.type == &vg_type_rd) && vg_st.handle == VG_HANDLE)
 
 /* ---- C library FILE model (the FILE source is the same ghost source vg_cur / vg_src) ---- */
+/* ASSUME: errno is an int lvalue that library functions may set on failure. */
+int vg_errno;
+#undef errno
+#define errno vg_errno
 FILE vg_file_obj;
 #define VG_FILE (&vg_file_obj)
 unsigned vg_open;     /* FILE handles currently open (fopen'ed and not yet fclose'd) */
@@ -182,15 +186,15 @@ long vg_ftell(FILE *fh)
 	__CPROVER_assume(r >= -1);
 	return r;
 }
-/* ASSUME: fseek(fh, off, SEEK_CUR) with off >= 0 either moves the position forward by exactly off and
+/* ASSUME: fseek(fh, off, SEEK_CUR) either moves the position by exactly off and
    returns 0 (also beyond the end of a regular file), or returns -1 with errno set and the position
    unchanged (lib/lha_input_stream.c guards the Windows partial-seek case by calling ftell first). */
 int vg_fseek(FILE *fh, long off, int whence)
 {
 	__CPROVER_assert(fh == VG_FILE && whence == SEEK_CUR, "fseek relative to the current position on the stream's FILE");
-	__CPROVER_assert(off >= 0, "fseek forward only");
 	if (nondet_bool()) {
-		__CPROVER_assume((size_t) off <= VG_POS_MAX && vg_cur + (size_t) off <= VG_POS_MAX);
+		/* position stays within [0, 2^62] (a negative off moves backwards) */
+		__CPROVER_assume(off >= 0 ? ((size_t) off <= VG_POS_MAX && vg_cur + (size_t) off <= VG_POS_MAX) : ((size_t) -(off + 1) < vg_cur));
 		vg_cur += (size_t) off;
 		vg_feof = 0;
 		return 0;
@@ -242,6 +246,13 @@ void *vg_memmove(void *dst, const void *src, size_t n)
 #define memmove vg_memmove
 #define memcpy vg_memmove
 
+/* the two FILE stream types are defined further down in the file; contracts above them name them */
+static const LHAInputStreamType file_source_owned;
+static const LHAInputStreamType file_source_unowned;
+#ifndef VG_FREE_T
+#define VG_FREE_T 1
+#endif
+
 #include "lib/lha_input_stream.c"
 
 static void vg_havoc(void)
@@ -253,8 +264,31 @@ static void vg_havoc(void)
 	vg_closed = nondet_uint();
 	vg_open = nondet_uint();
 	vg_feof = nondet_bool();
+	vg_S = nondet_size_t(); vg_L0 = nondet_size_t(); vg_mark_pos = nondet_size_t();
+	vg_hit_skip = nondet_int(); vg_mark = nondet_bool();
 }
 
 void h_file_header_match(void) { uint8_t *b; vg_havoc(); file_header_match(b); VG_CANARY("file_header_match"); }
 void h_skip_sfx(void) { LHAInputStream *s; vg_havoc(); skip_sfx(s); VG_CANARY("skip_sfx"); }
 void h_empty_leadin(void) { LHAInputStream *s; size_t n; vg_havoc(); empty_leadin(s, n); VG_CANARY("empty_leadin"); }
+void h_read(void) { LHAInputStream *s; void *b; size_t n; vg_havoc(); lha_input_stream_read(s, b, n); VG_CANARY("lha_input_stream_read"); }
+void h_skip(void) { LHAInputStream *s; size_t n; vg_havoc(); lha_input_stream_skip(s, n); VG_CANARY("lha_input_stream_skip"); }
+void h_new(void) { const LHAInputStreamType *t; void *h; vg_havoc(); lha_input_stream_new(t, h); VG_CANARY("lha_input_stream_new"); }
+void h_free(void) { LHAInputStream *s; vg_havoc(); lha_input_stream_free(s); VG_CANARY("lha_input_stream_free"); }
+void h_file_source_read(void) { void *h; void *b; size_t n; vg_havoc(); file_source_read(h, b, n); VG_CANARY("file_source_read"); }
+void h_file_source_skip_fallback(void) { FILE *h; size_t n; vg_havoc(); file_source_skip_fallback(h, n); VG_CANARY("file_source_skip_fallback"); }
+void h_file_source_skip(void) { void *h; size_t n; vg_havoc(); file_source_skip(h, n); VG_CANARY("file_source_skip"); }
+void h_file_source_close(void) { void *h; vg_havoc(); file_source_close(h); VG_CANARY("file_source_close"); }
+void h_from(void) { char *f; vg_havoc(); lha_input_stream_from(f); VG_CANARY("lha_input_stream_from"); }
+void h_from_FILE(void) { FILE *f; vg_havoc(); lha_input_stream_from_FILE(f); VG_CANARY("lha_input_stream_from_FILE"); }
+
+/* The two FILE stream types consist of the functions under contract; the unowned one never closes. */
+void h_types(void)
+{
+	__CPROVER_assert(file_source_owned.read == file_source_read && file_source_owned.skip == file_source_skip &&
+	                 file_source_owned.close == file_source_close, "owned FILE type uses the functions under contract");
+	__CPROVER_assert(file_source_unowned.read == file_source_read && file_source_unowned.skip == file_source_skip &&
+	                 file_source_unowned.close == NULL, "unowned FILE type: same read/skip, no close");
+	__CPROVER_assert(LEADIN_BUFFER_LEN == 24 && sizeof(vg_st.leadin) == 24 && VG_SRC_MAX == 13, "harness constants equal the code's");
+	VG_CANARY("types");
+}
